@@ -22,12 +22,12 @@ abbrev Bytes := List UInt8
 def le32 (n : Nat) : Bytes := natLE (n % 2^32) 4
 def be32 (n : Nat) : Bytes := natBE (n % 2^32) 4
 
-def str (s : String) : Bytes := s.toUTF8.toList
-
-def bucketIndexPrefix : Bytes := str "bidx"
-def curBucketIDKeyName : Bytes := str "bidx-cbid"
-def blockIdxBucketName : Bytes := str "ffldb-blockidx"
-def writeLocKeyName : Bytes := str "ffldb-writeloc"
+def bucketIndexPrefix : Bytes := [98, 105, 100, 120]                                  -- "bidx"
+def curBucketIDKeyName : Bytes := [98, 105, 100, 120, 45, 99, 98, 105, 100]            -- "bidx-cbid"
+def blockIdxBucketName : Bytes :=
+  [102, 102, 108, 100, 98, 45, 98, 108, 111, 99, 107, 105, 100, 120]                  -- "ffldb-blockidx"
+def writeLocKeyName : Bytes :=
+  [102, 102, 108, 100, 98, 45, 119, 114, 105, 116, 101, 108, 111, 99]                 -- "ffldb-writeloc"
 def metadataBucketID : Bytes := [0, 0, 0, 0]
 def blockIdxBucketID : Bytes := [0, 0, 0, 1]
 
